@@ -331,3 +331,40 @@ Section InstanceFacts.
     - intros t ts. apply cts_valid_self.
   Qed.
 End InstanceFacts.
+
+(* ---------- runs that never hit: --info-export, and the first run after a damaged cache file ---------- *)
+Section NeverHit.
+  Variable H : list ascii -> N.
+  Variable EV : str -> evr.
+  Variable bd : str.
+  Variable store : str -> N -> list ydoc.
+  Notation crun := (crun H EV bd store).
+  Notation cstep := (cstep H EV bd store).
+  Notation clookup := (lookup vtree cargs tstate gen_result cts_valid caccepts cview cis_local).
+
+  Lemma no_lookup_no_hit a k w : clookup a w = None -> forall r, snd (crun a k w) <> OHit r.
+  Proof.
+    intros Hl r. unfold Cache.crun, Cache.mrun. destruct (cprecheck a) as [u| | |]; cbn [snd]; try discriminate.
+    rewrite Hl. destruct (cload_ts bd store (w_tree _ _ _ _ w)); cbn [snd]; try discriminate.
+    destruct (Nat.eqb k 1); [discriminate|]. destruct (Nat.eqb k 2); [discriminate|]. destruct (Nat.eqb k 3); [discriminate|].
+    destruct (cgen H EV bd store (w_tree _ _ _ _ w) a); cbn [snd]; try discriminate.
+    destruct (Nat.eqb k 4 || Nat.eqb k 5); [discriminate|]. destruct (Nat.eqb k 6); [discriminate|].
+    destruct (Nat.eqb k 7); discriminate.
+  Qed.
+
+  (* a run with --info-export is never served from the cache *)
+  Theorem info_export_never_hits a k w : ca_info a = true -> forall r, snd (crun a k w) <> OHit r.
+  Proof.
+    intros Hi. apply no_lookup_no_hit. unfold Cache.lookup.
+    destruct (s_cache _ _ _ (get_slot _ _ _ _ w (cis_local a))) as [c|]; [|reflexivity].
+    unfold caccepts. rewrite Hi. cbn [negb]. rewrite andb_false_r. reflexivity.
+  Qed.
+
+  (* after the cache file of a mode was damaged, the next run in that mode is not served from it *)
+  Theorem damaged_cache_never_hits a k (w : world vtree cargs tstate gen_result) :
+    forall r, snd (crun a k (cstep w (Corrupt (cis_local a)))) <> OHit r.
+  Proof.
+    apply no_lookup_no_hit. unfold Cache.cstep, Cache.mstep, Cache.lookup.
+    destruct (cis_local a); reflexivity.
+  Qed.
+End NeverHit.
